@@ -62,6 +62,25 @@ func (c *collector) Case(hash string, compact func() string, nontrivial bool, la
 	}
 }
 
+// CaseN records a case that stands for many evaluations (crash images, fault
+// runs): n evaluations of which nt were distinct and non-trivial.
+func (c *collector) CaseN(hash string, n, nt int, samples []string, labels map[string]int) {
+	c.mu.Lock()
+	defer c.mu.Unlock()
+	c.out.Evaluations += n
+	for l, v := range labels {
+		c.out.Labels[l] += v
+	}
+	for i := 0; i < nt; i++ {
+		c.nontrivial[fmt.Sprintf("%s/%d", hash, i)] = struct{}{}
+	}
+	for _, s := range samples {
+		if len(c.out.Samples) < 4 {
+			c.out.Samples = append(c.out.Samples, s)
+		}
+	}
+}
+
 func (c *collector) AddExtra(k string, n int) {
 	c.mu.Lock()
 	c.out.Extra[k] += n
